@@ -52,6 +52,9 @@ CLAIMS["C13"] = ("explicit enumeration of the input space on the real code with 
 CLAIMS["C14"] = ("explicit-state enumeration of event histories on the real objects (environment choices are free) + delay-bounded schedule enumeration with a linearisation check",
     "Every history over {input i finishes, cancel output, stop} for every outcome assignment (7 values of different types, exception, cancelled, never) with 1-3 inputs (4 in thorough), duplicates and f_nocancel-shielded inputs is executed; after every step the output is compared with the and/or fold reference, and at the end every input still pending at decision time must have received cancel(). Concurrent completions by separate threads (+ output canceller) are explored to d<=2 at line granularity of bool.py and checked for a linearisation consistent with real-time order.",
     "DESIGN.md section 6 C14")
+CLAIMS["C15"] = ("explicit-state enumeration of event histories on the real objects + delay-bounded schedule enumeration with a linearisation check",
+    "Every history over {input i finishes, cancel output, stop} for every assignment of {value, exception, cancelled, never} to 0-3 inputs (4 in thorough) of f_zip / f_sequence / f_traverse, duplicate inputs, sizes 15-25 and 50 in both completion orders with a failing input at first/middle/last position, and f_traverse with a raising fn, is executed and compared step by step with a positional reference (tuple / list type, first failure, cancellation, cancel fan-out, fn called once per element in order). Concurrent completions are explored to d<=2 at line granularity of zip.py with a linearisation check.",
+    "DESIGN.md section 6 C15")
 NOT_YET = {}
 
 props = [json.loads(l) for l in open(os.path.join(HERE, "properties.jsonl"))]
